@@ -215,6 +215,17 @@ def script(rng, tx0, rx0, nq, word):
                 if nt is not None and r.loop.time() + float(d) >= nt - 1e-6:
                     continue
                 r.do(f"W={d.numerator}/{d.denominator}")
+            elif ch == "W":
+                # a slow peer: a long wait that still ends before the ACK timeout (the answer that follows arrives late but in time)
+                nt = r.loop.next_timer()
+                if nt is None:
+                    continue
+                room = nt - r.loop.time()
+                d = Fraction(rng.choice([2, 3, 5, 7, 9]), 10) * Fraction(int(room * 1000), 1000)
+                d = Fraction(int(d * 1000), 1000)
+                if d <= 0 or r.loop.time() + float(d) >= nt - 1e-3:
+                    continue
+                r.do(f"W={d.numerator}/{d.denominator}")
             elif ch == "c":
                 live = [i for i, t in r.tasks.items() if not t.done()]
                 if live:
@@ -403,6 +414,12 @@ def cases(ctx):
     for pre in ("e", "ttttt", "nnnnn", "a", "", "ea", "t"):
         for post in ("", "a", "k", "ka", "t", "e"):
             out.append((rng.randrange(8), rng.randrange(8), rng.randrange(2), pre + "z" + post))
+    # slow answers: the adaptive timeout after late-but-in-time ACKs / NAKs, then silence so that the timeout in force shows
+    # as the gap before the retransmission (the clamp to [T_RX_ACK_MIN, T_RX_ACK_MAX] must hold at every step)
+    for pre in ("", "t", "tt", "n", "tn"):
+        for mid in itertools.product(("Wa", "Wn", "WWa", "wa", "Wd"), repeat=ctx.n(2, 3)):
+            for post in ("t", "tt", "Wat"):
+                out.append((rng.randrange(8), rng.randrange(8), 0, pre + "".join(mid) + post))
     pairs = ["b" + x + y for x in "asnekdo" for y in "asnekdo"]
     toks = list(core) + pairs
     for n in range(1, 3):
@@ -411,7 +428,7 @@ def cases(ctx):
                 out.append((0, 0, 0, "".join(w)))
                 out.append((0, 0, 1, "".join(w) + "tat"))
     for _ in range(ctx.n(1500, 20000)):
-        w = "".join(rng.choice(["a", "a", "a", "s", "n", "n", "t", "t", "e", "k", "r", "d", "d", "w", "w", "c", "o", "o", "z", rng.choice(pairs)]) for _ in range(rng.randint(3, 14)))
+        w = "".join(rng.choice(["a", "a", "a", "s", "n", "n", "t", "t", "e", "k", "r", "d", "d", "w", "w", "W", "W", "c", "o", "o", "z", rng.choice(pairs)]) for _ in range(rng.randint(3, 14)))
         out.append((rng.randrange(8), rng.randrange(8), rng.randint(0, 2), w))
     for _ in range(ctx.n(20, 200)):  # long: frame numbers wrap
         w = "".join(rng.choice("aaaaaadwn") for _ in range(60))
